@@ -346,8 +346,7 @@ package ddsketch
 
 //@ func DecodeDDSketch
 //@   serves C08 C06
-//@   trusted the store provider is a caller-supplied function value (its contract: a fresh, empty store satisfying the store invariant); covered by the bounded stand-in decode-roundtrip
-//@   bounded decode-roundtrip
+//@   trusted the store provider is a caller-supplied function value (assumed: it returns a fresh, empty store satisfying the store invariant); body not verified
 //@   ensures result != nil
 
 // Exact variant: the statistics blocks are folded into the statistics (count and sum are added, min/max folded
@@ -383,3 +382,26 @@ package ddsketch
 //@   ensures pure: EInv(s) && ESameStats(s) && s.DDSketch == old(s.DDSketch) && KSame(s.DDSketch)
 //@   ensures stable: footprintStable(s)
 //@   modifies *b, arr(*b), footprint(s)
+
+// ---------------------------------------------------------------- change of mapping / unit (C14 frame only; C17 not claimed)
+// changeStoreMapping redistributes each source bin over the target bins its scaled range overlaps. What it does to
+// the target store is NOT specified or verified here (C17 is not claimed); assumed: the source store keeps its
+// content and both stores stay valid.
+//@ func changeStoreMapping
+//@   serves C14
+//@   trusted redistribution by interval overlap between two mappings (nonlinear; C17 not claimed): only its frame is assumed
+//@   requires mapping.MapOK(oldMapping) && mapping.MapOK(newMapping) && store.SInv(oldStore) && store.SInv(newStore) && disjoint(oldStore, newStore)
+//@   ensures store.SInv(oldStore) && store.SInv(newStore) && store.STot(oldStore) == old(store.STot(oldStore)) && (forall k int :: store.SView(oldStore, k) == old(store.SView(oldStore, k)))
+//@   ensures stable: footprintStable(oldStore) && footprintStable(newStore) && store.SConf(oldStore) == old(store.SConf(oldStore)) && store.SConf(newStore) == old(store.SConf(newStore)) && dyntype(oldStore) == old(dyntype(oldStore))
+//@   modifies footprint(oldStore), footprint(newStore)
+
+// ChangeMapping leaves the source sketch's content unchanged and returns a sketch carrying the requested mapping,
+// the given stores and exactly the source's zero weight (or a copy when nothing changes).
+//@ func DDSketch.ChangeMapping
+//@   serves C14
+//@   requires KInv(s) && mapping.MapOK(newMapping) && positiveStore != nil && negativeStore != nil && store.SInv(positiveStore) && store.SInv(negativeStore) && disjoint(positiveStore, negativeStore) && disjoint(s, positiveStore) && disjoint(s, negativeStore)
+//@   ensures result != nil && KInv(s) && KSame(s)
+//@   ensures carried: !(scaleFactor == 1.0 && mapping.MEq(s.IndexMapping, newMapping)) ==> fresh(result) && result.IndexMapping == newMapping && result.positiveValueStore == positiveStore && result.negativeValueStore == negativeStore && same(result.zeroCount, s.zeroCount)
+//@   modifies footprint(s), footprint(positiveStore), footprint(negativeStore)
+
+// The exact variant's ChangeMapping (caller-supplied store provider called twice) is not under contract.
